@@ -680,6 +680,8 @@ class MailboxSet(MailboxSetInterface[MailboxData]):
                 if name.startswith(prefix):
                     # an inferior must not land on an existing folder
                     dest = after + name[len(before):]
+                    # nor get a name that cannot be used afterwards
+                    self._check_name(dest, ValueError)
                     try:
                         self._layout.get_folder(dest, self.delimiter)
                     except FileNotFoundError:
